@@ -444,7 +444,8 @@ func c04RootPV(c *Ctx) {
 			}
 			// leaf exit: depth == 0 (the root is searched at depth >= 1)
 			f := st.FactsString()
-			if strings.Contains(f, "==(depth,0)") && !strings.Contains(f, "!==(depth,0)") {
+			_, _, depthN := scoreParams(fn)
+			if depthN != "" && strings.Contains(f, "==("+depthN+",0)") && !strings.Contains(f, "!==("+depthN+",0)") {
 				continue
 			}
 			// a push succeeded but nothing improved alpha: PV empty although moves exist - only possible with
